@@ -2,7 +2,7 @@
    Only statements live here; every proof is [exact <lemma of Proofs/CallGraphProofs.v>]. *)
 From Coq Require Import String List Bool Arith.
 From Coca Require Import Lib.GoMap Lib.Dot Lib.Reach Model.CodeModel Model.CallGraph Model.CallGraphSpec
-     Generated.Constants Proofs.DotProofs Proofs.RCallProofs Proofs.CallGraphProofs.
+     Generated.Constants Proofs.DotProofs Proofs.RCallProofs Proofs.CallGraphProofs Proofs.ApiChainProofs.
 Import ListNotations.
 Open Scope string_scope.
 
@@ -60,6 +60,26 @@ Theorem C03_call_meets_spec : forall cnt m root lookup,
 Proof. exact canalysis_meets_spec. Qed.
 Print Assumptions C03_call_meets_spec.
 
+(* 5b. the same for `api` (CallGraph.AnalysisByFiles), for EVERY list of APIs, model and DI map: the text is
+      well-formed DOT, its edge list splits into one section per API (the API's own edge, then the chain of its
+      handler), every section is sound, root-complete and exact within the budget -- after replacing injected
+      interfaces by their registered implementations -- and the Size column equals the number of edges of the
+      section plus one.  Hypotheses (decidable, [api_names_ok_b]): API labels hold no quote, backslash or line
+      end and are not method names; handler and callee names hold no backslash, line end or '>' *)
+Theorem C03_api_meets_spec : forall apis m di,
+    api_names_ok_b m di apis = true ->
+    c03_api_verdict (S maxLoopCount) m di apis
+                    (fst (analysis_by_files apis m di)) (snd (analysis_by_files apis m di)) = [].
+Proof. exact analysis_by_files_meets_spec. Qed.
+Print Assumptions C03_api_meets_spec.
+
+(* the Size column on its own: len(strings.Split(chain, " -> ")) of ANY printed statement list whose names hold
+   no '>' is its number of edges plus one *)
+Theorem C03_size_is_edges_plus_one : forall l,
+    edge_names_gt_free l -> split_count (render_stmts l) = S (List.length (stmt_edges l)).
+Proof. exact split_count_render. Qed.
+Print Assumptions C03_size_is_edges_plus_one.
+
 (* 6. a query does not depend on what the process did before (the counter is re-initialised) *)
 Theorem C03_call_state_independent : forall c1 c2 m root lookup,
     snd (canalysis c1 root m lookup) = snd (canalysis c2 root m lookup).
@@ -81,3 +101,9 @@ Example C03_example_graph :
   = Some [("p.A.a", "p.A.d"); ("p.A.r", "p.A.a"); ("p.A.b", "p.A.d"); ("p.A.b", "ext.E.x"); ("p.A.r", "p.A.b")].
 Proof. exact ex_cmodel_graph. Qed.
 Print Assumptions C03_example_graph.
+
+Example C03_example_apis :
+  api_names_ok_b ex_cmodel [] ex_apis = true /\
+  snd (analysis_by_files ex_apis ex_cmodel []) = [6; 8].
+Proof. exact (conj ex_apis_ok (proj1 ex_apis_output)). Qed.
+Print Assumptions C03_example_apis.
